@@ -236,7 +236,8 @@ pub fn checks(tier: Tier) -> Vec<Check> {
     if fe_layout().nlimbs == 0 {
         return vec![];
     }
-    vec![Check {
+    let mut v = vector_checks(tier);
+    v.insert(0, Check {
         name: "C01.serial-field-model".into(),
         strategy: strategy(),
         cases: tier.scale(40_000, 50),
@@ -245,5 +246,204 @@ pub fn checks(tier: Tier) -> Vec<Check> {
         classify: Box::new(classify),
         rule: RULE,
         exhaustive: false,
-    }]
+    });
+    v
+}
+
+// ------------------------------------------------------------------------------------
+// 4-lane vector field types (AVX2, IFMA)
+// ------------------------------------------------------------------------------------
+
+/// exclusive limb bounds (even/26-bit, odd/25-bit) for excess b
+pub fn avx2_bound(b: f64) -> (u64, u64) {
+    ((2f64.powf(26.0 + b)).ceil() as u64, (2f64.powf(25.0 + b)).ceil() as u64)
+}
+
+/// raw lanes (4 x nlimbs) with per-limb exclusive bounds `bounds[j]` and nominal widths `widths[j]`
+pub fn raw_lanes(bounds: Vec<u64>, widths: Vec<usize>, limb_bytes: usize) -> BoxedStrategy<Vec<u8>> {
+    let n = bounds.len();
+    (0u8..10, vec((0u8..10, any::<u64>(), 0u32..64), 4 * n), 0usize..4).prop_map(move |(mode, per, hot)| {
+        let mut o = vec![];
+        for lane in 0..4 {
+            for j in 0..n {
+                let max = bounds[j] - 1;
+                let nominal = 1u64 << widths[j];
+                let (cat, r, k) = per[lane * n + j];
+                let pick = match mode {
+                    0 => 2,                                   // every limb of every lane at the bound
+                    1 => if lane == hot { 2 } else { 8 },     // one lane at the bound
+                    2 => 4,                                   // all-ones limbs
+                    3 => 7,
+                    4 => 8,
+                    _ => cat,
+                };
+                let v = match pick {
+                    0 => 0,
+                    1 => 1,
+                    2 => max,
+                    3 => max - (r % 4).min(max),
+                    4 => (nominal - 1).min(max),
+                    5 => nominal.min(max),
+                    6 => (nominal - 19).min(max),
+                    7 => r % (max + 1),
+                    8 => r % nominal.min(max + 1),
+                    _ => (1u64 << (k % 64).min(63)).min(max),
+                };
+                o.extend_from_slice(&v.to_le_bytes()[..limb_bytes]);
+            }
+        }
+        o
+    }).boxed()
+}
+
+fn avx2_lanes(b: f64) -> BoxedStrategy<Vec<u8>> {
+    let (be, bo) = avx2_bound(b);
+    let bounds: Vec<u64> = (0..10).map(|j| if j % 2 == 0 { be.min(1 << 32) } else { bo.min(1 << 32) }).collect();
+    let widths: Vec<usize> = (0..10).map(|j| if j % 2 == 0 { 26 } else { 25 }).collect();
+    raw_lanes(bounds, widths, 4)
+}
+/// Domain of the reducing `Neg`: documented as b < 4.0, but the code computes 16p - x limb-wise, so
+/// limbs above the limbs of 16p (2^30-304, 2^29-16, 2^30-16, ...) underflow. That sliver
+/// (b in [3.9999996, 4.0)) is recorded in known_findings.json (C01 avx2-neg-documented-bound) and
+/// excluded here by construction so that the search continues behind it.
+fn avx2_neg_lanes() -> BoxedStrategy<Vec<u8>> {
+    let bounds: Vec<u64> = (0..10).map(|j| if j == 0 { (1u64 << 30) - 304 + 1 } else if j % 2 == 0 { (1u64 << 30) - 16 + 1 } else { (1u64 << 29) - 16 + 1 }).collect();
+    let widths: Vec<usize> = (0..10).map(|j| if j % 2 == 0 { 26 } else { 25 }).collect();
+    raw_lanes(bounds, widths, 4)
+}
+fn four_bytes() -> BoxedStrategy<Vec<u8>> {
+    vec(u256_interesting(), 4).prop_map(|v| { let mut o = vec![]; for x in v { o.extend_from_slice(&x); } o }).boxed()
+}
+/// AVX2 operand respecting excess bound b: raw lanes, or four encodings through `new`
+fn avx2_operand(b: f64) -> BoxedStrategy<Vec<u8>> {
+    prop_oneof![5 => avx2_lanes(b), 1 => four_bytes()].boxed()
+}
+/// constants for Mul<(u32,u32,u32,u32)>: no precondition is documented; the only caller passes
+/// (121666, 121666, 2*121666, 2*121665), so the domain is constants below 2^18.
+fn small_consts() -> BoxedStrategy<Vec<u8>> {
+    vec(prop_oneof![Just(0u32), Just(1), Just(121665), Just(121666), Just(2 * 121666), Just(2 * 121665), Just((1u32 << 18) - 1), 0u32..(1 << 18)], 4)
+        .prop_map(|v| { let mut o = vec![]; for x in v { o.extend_from_slice(&x.to_le_bytes()); } o }).boxed()
+}
+
+pub fn avx2_strategy() -> BoxedStrategy<Req> {
+    let any32 = || avx2_lanes(7.0); // any u32 lanes
+    prop_oneof![
+        2 => any32().prop_map(|x| Req::new("v2.id", vec![x])),
+        2 => four_bytes().prop_map(|x| Req::new("v2.id", vec![x])),
+        1 => u256_interesting().prop_map(|x| Req::new("v2.splat", vec![x.to_vec()])),
+        2 => (any32(), 0u8..10).prop_map(|(x, c)| Req::new("v2.shuffle", vec![x, vec![c]])),
+        2 => (any32(), any32(), 0u8..8).prop_map(|(x, y, c)| Req::new("v2.blend", vec![x, y, vec![c]])),
+        3 => avx2_operand(0.999).prop_map(|x| Req::new("v2.negate_lazy", vec![x])),
+        3 => avx2_operand(0.01).prop_map(|x| Req::new("v2.diff_sum", vec![x])),
+        3 => any32().prop_map(|x| Req::new("v2.reduce", vec![x])),
+        5 => avx2_operand(1.5).prop_map(|x| Req::new("v2.sqnd", vec![x])),
+        3 => prop_oneof![5 => avx2_neg_lanes(), 1 => four_bytes()].prop_map(|x| Req::new("v2.neg", vec![x])),
+        2 => (avx2_lanes(5.0), avx2_lanes(5.0)).prop_map(|(x, y)| Req::new("v2.add", vec![x, y])),
+        3 => (avx2_operand(1.75), small_consts()).prop_map(|(x, c)| Req::new("v2.mul_consts", vec![x, c])),
+        8 => (avx2_operand(2.5), avx2_operand(1.75)).prop_map(|(x, y)| Req::new("v2.mul", vec![x, y])),
+        1 => (any32(), any32(), any::<u8>()).prop_map(|(x, y, c)| Req::new("v2.cond", vec![x, y, vec![c]])),
+    ].boxed()
+}
+
+fn ifma_lanes(bound: u64) -> BoxedStrategy<Vec<u8>> {
+    raw_lanes(vec![bound; 5], vec![51; 5], 8)
+}
+pub fn ifma_strategy() -> BoxedStrategy<Req> {
+    let anyu = || ifma_lanes(u64::MAX);
+    let neg_dom = || prop_oneof![4 => ifma_lanes(36028797018963664), 1 => four_bytes()].boxed();
+    let red = || prop_oneof![5 => ifma_lanes(1 << 52), 1 => four_bytes()].boxed();
+    prop_oneof![
+        2 => anyu().prop_map(|x| Req::new("vi.id", vec![x])),
+        1 => four_bytes().prop_map(|x| Req::new("vi.id", vec![x])),
+        4 => anyu().prop_map(|x| Req::new("vi.reduce", vec![x])),
+        3 => neg_dom().prop_map(|x| Req::new("vi.diff_sum", vec![x])),
+        3 => neg_dom().prop_map(|x| Req::new("vi.negate_lazy", vec![x])),
+        2 => (anyu(), 0u8..10).prop_map(|(x, c)| Req::new("vi.shuffle", vec![x, vec![c]])),
+        2 => (anyu(), anyu(), 0u8..6).prop_map(|(x, y, c)| Req::new("vi.blend", vec![x, y, vec![c]])),
+        2 => (ifma_lanes(1 << 63), ifma_lanes(1 << 63)).prop_map(|(x, y)| Req::new("vi.add", vec![x, y])),
+        1 => (red(), 0u8..10).prop_map(|(x, c)| Req::new("vi.rshuffle", vec![x, vec![c]])),
+        1 => (red(), red(), 0u8..6).prop_map(|(x, y, c)| Req::new("vi.rblend", vec![x, y, vec![c]])),
+        6 => red().prop_map(|x| Req::new("vi.square", vec![x])),
+        8 => (red(), red()).prop_map(|(x, y)| Req::new("vi.mul", vec![x, y])),
+        3 => (red(), small_consts()).prop_map(|(x, c)| Req::new("vi.mul_consts", vec![x, c])),
+        3 => red().prop_map(|x| Req::new("vi.neg", vec![x])),
+        1 => (red(), red(), any::<u8>()).prop_map(|(x, y, c)| Req::new("vi.cond", vec![x, y, vec![c]])),
+    ].boxed()
+}
+
+pub fn classify_vec(req: &Req, _resp: &Resp) -> Vec<&'static str> {
+    let ifma = req.op.starts_with("vi.");
+    let mut over = false;
+    let mut ones = false;
+    let mut bytes = false;
+    let mut big = false;
+    for x in &req.a {
+        if x.len() == 160 {
+            let (n, lb) = if ifma { (5, 8) } else { (10, 4) };
+            for i in 0..4 {
+                for j in 0..n {
+                    let k = lb * (n * i + j);
+                    let mut b = [0u8; 8];
+                    b[..lb].copy_from_slice(&x[k..k + lb]);
+                    let v = u64::from_le_bytes(b);
+                    let w = if ifma { 51 } else if j % 2 == 0 { 26 } else { 25 };
+                    if v >= 1 << w {
+                        over = true;
+                    }
+                    if v >= 3 << w {
+                        big = true;
+                    }
+                    if v == (1 << w) - 1 {
+                        ones = true;
+                    }
+                }
+            }
+        } else if x.len() == 128 {
+            bytes = true;
+        }
+    }
+    let mut l = vec![];
+    if over { l.push("limb>=nominal"); }
+    if big { l.push("limb>=3x-nominal"); }
+    if ones { l.push("all-ones-limb"); }
+    if bytes { l.push("built-with-new()"); }
+    l
+}
+
+pub const RULE_VEC: &str = "4-lane vector field types through the guarded hook: raw lanes respecting each method's documented precondition (AVX2: negate_lazy b<0.999, diff_sum b<0.01, square_and_negate_D b<1.5, Neg b<4.0, Mul lhs b<2.5 / rhs b<1.75, others any u32; IFMA: Reduced limbs < 2^52, negate_lazy/diff_sum limbs below the 16p limbs, others any u64), incl. every limb of every lane at the bound; result lanes are evaluated by the model (sum limb*2^shift mod p) and split().as_bytes() compared with lane-wise integer arithmetic; non-trivial = some limb >= its nominal size, an all-ones limb, or operands built through new() from special byte strings";
+
+pub fn vector_checks(tier: Tier) -> Vec<Check> {
+    let mut v = vec![];
+    #[cfg(all(curve25519_dalek_verif, not(any(curve25519_dalek_backend = "serial", curve25519_dalek_backend = "fiat"))))]
+    {
+        if std::is_x86_feature_detected!("avx2") {
+            v.push(Check {
+                name: "C01.avx2-field-model".into(),
+                strategy: avx2_strategy(),
+                cases: tier.scale(20_000, 50),
+                exec: Box::new(crate::ops::exec),
+                oracle: Box::new(crate::mops::vector::oracle),
+                classify: Box::new(classify_vec),
+                rule: RULE_VEC,
+                exhaustive: false,
+            });
+        }
+    }
+    #[cfg(all(curve25519_dalek_verif, curve25519_dalek_backend = "unstable_avx512"))]
+    {
+        if std::is_x86_feature_detected!("avx512ifma") && std::is_x86_feature_detected!("avx512vl") {
+            v.push(Check {
+                name: "C01.ifma-field-model".into(),
+                strategy: ifma_strategy(),
+                cases: tier.scale(20_000, 50),
+                exec: Box::new(crate::ops::exec),
+                oracle: Box::new(crate::mops::vector::oracle),
+                classify: Box::new(classify_vec),
+                rule: RULE_VEC,
+                exhaustive: false,
+            });
+        }
+    }
+    let _ = tier;
+    v
 }
